@@ -69,6 +69,10 @@ type profile struct {
 	oneStrategy                                                                string // "", "R", "A"
 }
 
+// genCommon restricts generation to the feature set the three resolver strategies share (C02):
+// no abstract types, String/Boolean arguments that are always supplied, variables always given
+var genCommon bool
+
 func named(id int) gTy { return gTy{kind: 'n', id: id} }
 
 func (s *gSchema) add(t *gType) {
@@ -98,10 +102,10 @@ func genSchema(r *rand.Rand) *gSchema {
 		objs = append(objs, 20+i)
 	}
 	var iface, union *gType
-	if chance(r, 0.65) {
+	if chance(r, 0.65) && !genCommon {
 		iface = &gType{id: 28, kind: "iface"}
 	}
-	if chance(r, 0.65) {
+	if chance(r, 0.65) && !genCommon {
 		union = &gType{id: 29, kind: "union"}
 		n := 1 + r.Intn(len(objs))
 		perm := r.Perm(len(objs))
@@ -165,6 +169,9 @@ func genSchema(r *rand.Rand) *gSchema {
 		n := 1 + r.Intn(2)
 		for _, a := range r.Perm(3)[:n] {
 			t := named(pick(r, []int{10, 11, 12, 30}))
+			if genCommon {
+				t = named(pick(r, []int{11, 12}))
+			}
 			if chance(r, 0.3) {
 				in := t
 				t = gTy{kind: 'N', of: &in}
@@ -662,7 +669,7 @@ func (d *docGen) sels(container int, depth int) []sx.S {
 			args := []sx.S{"args"}
 			for _, a := range f.args {
 				req := a.ty.kind == 'N'
-				if (req && chance(r, 0.97)) || (!req && chance(r, d.p.pArgs)) {
+				if genCommon || (req && chance(r, 0.97)) || (!req && chance(r, d.p.pArgs)) {
 					var v sx.S
 					if chance(r, 0.35) {
 						v = d.useVar(a.ty)
@@ -673,7 +680,7 @@ func (d *docGen) sels(container int, depth int) []sx.S {
 					d.feats["argument"] = true
 				}
 			}
-			if len(args) > 2 && chance(r, 0.5) {
+			if len(args) > 2 && chance(r, 0.5) && !genCommon {
 				args[1], args[2] = args[2], args[1]
 			}
 			fid := d.id()
@@ -868,7 +875,7 @@ func genExecCase(r *rand.Rand, p *profile, id string) Case {
 		}
 		vs := []sx.S{"vars"}
 		for _, v := range oi.vars {
-			if chance(r, 0.6) {
+			if chance(r, 0.6) || genCommon {
 				vs = append(vs, sx.L(sx.A(v.name), varValue(r, s, v.ty)))
 			} else if v.dflt == "-" {
 				d.feats["var-unset"] = true
